@@ -108,6 +108,21 @@ func registerExtras(p *Program) {
 		visit(sink)
 		return BoolC(found)
 	}
+	I[verifPkg+".NoSummary"] = func(ex *Exec, fr *frame, fn *ssa.Function, a []Value) Value {
+		// run one summarised library function from its real body (suffix match on the name)
+		suffix := constStr(a[0], "NoSummary name")
+		hit := false
+		for name := range ex.P.Summary {
+			if strings.HasSuffix(name, suffix) {
+				ex.noSummaryFor[name] = true
+				hit = true
+			}
+		}
+		if !hit {
+			panic(Inconclusive{"NoSummary: no summary matches " + suffix})
+		}
+		return nil
+	}
 	I[verifPkg+".ExposesBeyond"] = I[verifPkg+".Exposes"]
 	I[verifPkg+".NoSummaries"] = func(ex *Exec, fr *frame, fn *ssa.Function, a []Value) Value {
 		ex.noSummary = true
